@@ -24,7 +24,7 @@ missed=0
 for id in $IDS; do
     prop=${id%%-*}
     git -C $S/repo reset -q --hard; git -C $S/repo clean -fdq; git -C $S/repo checkout -q --detach $HEADC 2>/dev/null
-    mode=$(/verif/tools/apply_seeded.sh $S/repo /verif/seeded/$id/patch.diff)
+    mode=$(/verif/tools/apply_seeded.sh $S/repo /verif/seeded/$id/patch.diff $prop)
     if [ "$mode" = FAIL ]; then echo "$id: PATCH-DOES-NOT-APPLY"; missed=1; continue; fi
     extra=""; [ "$mode" = BASE ] && extra="VERIF_C08_NO_FORK=1"
     start=$(date +%s)
